@@ -4,6 +4,7 @@ package main
 // (:global-declarations), assertions are scoped by push/pop.
 
 import (
+	"os"
 	"bufio"
 	"fmt"
 	"io"
@@ -31,6 +32,7 @@ type Solver struct {
 	defined map[int]bool // term ids defined/declared in this process
 	buf     strings.Builder
 	depth   int
+	fpStack []bool // per scope: do the assertions mention floating point?
 	// stats
 	nSat, nUnsat, nUnknown int
 	solveTime              time.Duration
@@ -62,7 +64,13 @@ func newSolver(kind string, timeoutMs int) (*Solver, error) {
 	if err := cmd.Start(); err != nil {
 		return nil, err
 	}
-	s := &Solver{name: kind, cmd: cmd, in: in, out: bufio.NewReaderSize(out, 1<<16), defined: map[int]bool{}, timeoutMs: timeoutMs}
+	var logw io.Writer
+	if d := os.Getenv("GOSYM_SMTLOG"); d != "" {
+		os.MkdirAll(d, 0o755)
+		f, _ := os.CreateTemp(d, "q-*.smt2")
+		logw = f
+	}
+	s := &Solver{log: logw, name: kind, cmd: cmd, in: in, out: bufio.NewReaderSize(out, 1<<16), defined: map[int]bool{}, timeoutMs: timeoutMs}
 	if kind == "cvc5" {
 		s.send("(set-logic ALL)\n")
 	} else {
@@ -71,6 +79,7 @@ func newSolver(kind string, timeoutMs int) (*Solver, error) {
 	}
 	s.send("(push)\n")
 	s.depth = 1
+	s.fpStack = []bool{false}
 	return s, nil
 }
 
@@ -138,11 +147,19 @@ func (s *Solver) flush() {
 func (s *Solver) Push() {
 	s.buf.WriteString("(push)\n")
 	s.depth++
+	top := false
+	if len(s.fpStack) > 0 {
+		top = s.fpStack[len(s.fpStack)-1]
+	}
+	s.fpStack = append(s.fpStack, top)
 }
 
 func (s *Solver) Pop() {
 	s.buf.WriteString("(pop)\n")
 	s.depth--
+	if len(s.fpStack) > 0 {
+		s.fpStack = s.fpStack[:len(s.fpStack)-1]
+	}
 }
 
 // ResetToBase pops all scopes above the base scope and opens a fresh one.
@@ -158,6 +175,9 @@ func (s *Solver) Assert(t *Term) {
 		return
 	}
 	s.define(t)
+	if t.fp && len(s.fpStack) > 0 {
+		s.fpStack[len(s.fpStack)-1] = true
+	}
 	fmt.Fprintf(&s.buf, "(assert %s)\n", refText(t))
 }
 
@@ -170,7 +190,13 @@ func (s *Solver) readLine() string {
 }
 
 func (s *Solver) Check() SatResult {
-	s.buf.WriteString("(check-sat)\n")
+	if s.name != "cvc5" && len(s.fpStack) > 0 && s.fpStack[len(s.fpStack)-1] {
+		// z3's incremental core is slow on floating point; the qffp tactic
+		// (fpa2bv + bit-blasting) decides the same assertions much faster
+		s.buf.WriteString("(check-sat-using qffp)\n")
+	} else {
+		s.buf.WriteString("(check-sat)\n")
+	}
 	s.flush()
 	t0 := time.Now()
 	var res SatResult
